@@ -236,6 +236,7 @@ def main(argv: List[str]) -> int:
     if a.runs:
         cfg["runs"] = a.runs
     seed = core.base_seed(20261003)
+    core.cleanup_stale_scratch()
     rep = core.Report(PROP, tier, seed)
     rep.log(f"VERIF_SEED={seed} tier={tier} runs={cfg['runs']} workers={core.n_workers()} repo={core.repo_root()}")
     t0 = time.monotonic()
